@@ -20,6 +20,10 @@ SRCS = ["src/pdsh/cbuf.c", "src/common/hostlist.c", "src/common/list.c", "src/co
         "src/common/xstring.c", "src/common/xpoll.c", "src/common/fd.c"]
 LIMIT = 25.0
 C0 = 1000000
+# what the harness process finds when it starts (sigthread_harness.c <inherited>): "" = default dispositions, nothing
+# blocked; i/z = SIGINT/SIGTSTP ignored, I/Z = blocked.  Set by run() around the scenarios that are repeated under each.
+INHERIT = ""
+INHERITED = {"ign-both": "iz", "blk-both": "IZ", "ign-int": "i", "ign-tstp": "z", "ign+blk": "izIZ"}
 
 
 def build(ctx):
@@ -40,7 +44,7 @@ class Run:
     def __init__(self, exe, fanout, n, batch=0, S=0):
         er, ew = os.pipe()
         cr, cw = os.pipe()
-        self.p = subprocess.Popen([exe, str(ew), str(cr), str(fanout), str(n), str(batch), str(S)],
+        self.p = subprocess.Popen([exe, str(ew), str(cr), str(fanout), str(n), str(batch), str(S), INHERIT or "-"],
                                   stdin=subprocess.DEVNULL, stdout=subprocess.PIPE, stderr=subprocess.PIPE,
                                   pass_fds=(ew, cr), env={"PATH": "/usr/bin:/bin"})
         os.close(ew)
@@ -385,26 +389,49 @@ def attempt(fn, exe, name):
     return res, r
 
 
+# the property does not depend on what pdsh inherits: the same scenarios under each inherited state of SIGINT/SIGTSTP
+# (batch and interactive; ^C, ^C^C, ^C^Z, lone ^Z)
+UNDER = [("ign-both", ["batch", "single", "double-gap0", "cancel-gap0", "lone-tstp"]),
+         ("blk-both", ["batch", "single", "double-gap1", "cancel-gap1", "lone-tstp"]),
+         ("ign-int", ["batch", "early-batch"]), ("ign-tstp", ["cancel-gap0"]), ("ign+blk", ["batch", "cancel-gap0"])]
+SPELL = {"i": "SIGINT ignored", "z": "SIGTSTP ignored", "I": "SIGINT blocked", "Z": "SIGTSTP blocked"}
+
+
 def run(ctx):
     """-> (offenders [(signature, what, case)], number of scenarios run, {scenario: outcome})"""
+    global INHERIT
     exe = build(ctx)
     if not exe:
         return [], 0, {}
     offs, dist = [], {}
     slow = 0
-    for name, fn in SCENARIOS:
+    byname = dict(SCENARIOS)
+    todo = [("", name) for name, _ in SCENARIOS] + [(d, name) for d, names in UNDER for name in names]
+    for disp, name in todo:
+        fn = byname[name]
+        key = name if not disp else "%s@%s" % (name, disp)
         if slow >= 2:
-            dist[name] = "skipped (two scenarios already ran into the limit)"
+            dist[key] = "skipped (two scenarios already ran into the limit)"
             continue
-        res, r = attempt(fn, exe, name)
-        if any(sig.startswith("real-threads:timeout") for sig, _ in res):
-            slow += 1
-            ctx.log("real threads, scenario %s: %s; retried once" % (name, res[0][1]))
+        INHERIT = INHERITED[disp] if disp else ""
+        try:
             res, r = attempt(fn, exe, name)
-        dist[name] = "ok" if not res else ",".join(sig for sig, _ in res)
+            if any(sig.startswith("real-threads:timeout") for sig, _ in res):
+                slow += 1
+                ctx.log("real threads, scenario %s: %s; retried once" % (key, res[0][1]))
+                res, r = attempt(fn, exe, name)
+        finally:
+            INHERIT = ""
+        how = ""
+        if disp:
+            how = " [pdsh started with %s: a signal that is ignored or blocked when pdsh starts must be handled like any " \
+                  "other -- dsh() blocks it everywhere and takes it with sigwait()]" % ", ".join(SPELL[c] for c in INHERITED[disp])
+            res = [(sig.replace("real-threads:", "real-threads:inherited-%s:" % disp, 1), what + how) for sig, what in res]
+        dist[key] = "ok" if not res else ",".join(sig for sig, _ in res)
         for sig, what in res:
             offs.append((sig, what, {"harness": "harness/sigthread_harness.c (real dsh.c, real threads and signals, gated "
                                                 "transport, settable clock)", "scenario": name,
+                                     "inherited": INHERITED[disp] if disp else "",
                                      "dialogue": r.log[-60:] if r else None, "stderr": r.stderr()[-600:] if r else None,
                                      "stdout": r.stdout()[-300:] if r else None, "exit": r.p.returncode if r else None}))
-    return offs, len(SCENARIOS), dist
+    return offs, len(todo), dist
